@@ -2,7 +2,7 @@
    equal to (Proofs/GoTieBuy.v): same refusals, same panics, success exactly when the model's bank answers every
    transfer, and the amounts of the events are the model's amounts. *)
 From Coq Require Import ZArith NArith List Bool String Lia.
-From JK Require Import Base.Dec Base.AList Base.GoSem Proofs.GoTieBuy Model.StoragePay Proofs.StoragePayProofs.
+From JK Require Import Base.Dec Base.AList Base.GoSem Proofs.GoTieBuy Model.StoragePay Proofs.StoragePayProofs Proofs.HoursRange.
 Import ListNotations.
 Open Scope Z_scope.
 
@@ -128,14 +128,26 @@ Section Buy.
   Definition prorated_hours (pi : plan) : Z :=
     dtrunc (dquo (dec (Z.quot (sat64 (p_end pi - e_now e)) 1000000)) (dec HOUR_MS)).
 
+  (* the two hour counts are an int64 count of nanoseconds divided by 3.6e12: they fit int64 *)
+  Lemma base_hours_fit : in_int64 base_hours = true.
+  Proof.
+    unfold base_hours. apply hours_fit_int64; [reflexivity|].
+    unfold StoragePay.buy_duration, wrap64, int64_min, int64_max.
+    pose proof (Z.mod_pos_bound (b_days m * DAY_NS + 2 ^ 63) (2 ^ 64) ltac:(lia)). lia.
+  Qed.
+  Lemma prorated_hours_fit pi : in_int64 (prorated_hours pi) = true.
+  Proof.
+    unfold prorated_hours. apply hours_fit_int64; [reflexivity|].
+    unfold sat64. destruct (Z.ltb_spec (p_end pi - e_now e) int64_min); [unfold int64_min, int64_max; lia|].
+    destruct (Z.ltb_spec int64_max (p_end pi - e_now e)); [unfold int64_min, int64_max; lia|lia].
+  Qed.
+
   Lemma buy_storage_tail p used :
     base_price e m s = BPrice p used -> b_for m = Some fa -> buy_storage e m s = model_tail p used.
   Proof. intros Hb Hf. unfold buy_storage, model_tail. rewrite Hb, Hf. reflexivity. Qed.
 
   Theorem buy_storage_follows_the_closed_form acc_exists :
     0 < b_days m -> b_for m = Some fa ->
-    in_int64 base_hours = true ->
-    (forall pi, the_plan = Some pi -> in_int64 (prorated_hours pi) = true) ->
     let '(okc, okf, okp, okr) := oracles in
     let pl := the_plan in
     buy_storage e m s
@@ -145,7 +157,9 @@ Section Buy.
                  ref_resolves true ref_is_creator (e_pol e) (e_refc e) okc true okf true okp okr okr)
               (buy_storage e m s).
   Proof.
-    intros Hd Hf Hh Hp.
+    intros Hd Hf.
+    assert (Hh : in_int64 base_hours = true) by apply base_hours_fit.
+    assert (Hp : forall pi, the_plan = Some pi -> in_int64 (prorated_hours pi) = true) by (intros pi _; apply prorated_hours_fit).
     (* first: what the price is *)
     destruct (base_price e m s) as [| |p used] eqn:BP.
     - (* refused before any effect *)
